@@ -10,5 +10,9 @@ CONSTANTS
   Clk0s = {0, 1}
   MaxEv = 26
   FilterAverage = 20
+  Classes <- ClassesAll
+  StepAt = {0, 1, 2}
+  MaxInDo = 4
+  EmitMinInDo = 0
 VIEW View
-INVARIANTS RawWhen HistoryIndependent ResetIsInit RawBothFail NavgCounts TypeOK
+INVARIANTS RawWhen HistoryIndependent ResetIsInit RawBothFail NavgCounts ReadsPerDo TypeOK
